@@ -7,6 +7,7 @@
 From PV Require Import Base.Bytes Model.Types Model.Enc Model.Dec Model.OpenType Proofs.OpenType Proofs.OpenTypeWitness.
 From PV Require Import Model.OpenTypeDef Proofs.OpenTypeDef.
 From PV Require Import Model.OpenTypeMap Proofs.OpenTypeMap.
+From PV Require Import Model.TableTypes Gen.Tables Proofs.RoundTrip1 Proofs.RoundTrip3b Proofs.RoundTrip3e Proofs.RoundTripModesC Proofs.RoundTripModes Proofs.RoundTripModes3 Proofs.OpenTypeRT.
 Local Open Scope N_scope.
 
 (* ---- with resolution off, or an unmapped governing value, the member holds exactly the complete
@@ -350,3 +351,91 @@ Example C18_example_replaced_and_removed :
     = Ok (DV TL1 (VRec [Some (VInt 3); Some (VAny [48;6;2;1;3;2;1;252])]), []).
 Proof. exact ex_replaced_and_removed. Qed.
 Print Assumptions C18_example_replaced_and_removed.
+
+(* ---- unconditional: the record round trip is no longer a premise ---- *)
+
+(* For every record type of the universe holding an open member (a tagged or untagged ANY governed by an
+   INTEGER/OID member), every governing value, every mapped inner type of the universe and every inner
+   value, every mode (mode_ok: definite with any decoder, or any stable mode with the BER/CER decoders):
+   encoding the record with the typed inner value and decoding it with resolution on (or a caller's
+   override map) returns - read against the type whose open member has the mapped type - the record
+   that was sent with the typed inner value in the open member.  hole_val: the other members are
+   values of the universe; inner_kept: finding F24 does not swallow an empty inner value of an OPTIONAL
+   open member under CER/DER; inner_definite / anys_ok / no_f01: the conditions of the indefinite-mode
+   round trip. *)
+Theorem C18_open_resolved_record : forall (ce cd : codec) (d : bool) (k : N) (srt : bool),
+  mode_ok ce cd d k ->
+  forall (T : ty) (fs : list (presence * ty)) (gi oi : nat) (p : presence) (ft : ty) (pg : presence) (gT : ty),
+  RoundTrip3b.stage3_ty srt ce T = true ->
+  (d = false -> RoundTripModes.no_f01 T = true) ->
+  rec_fields T = Some fs ->
+  nth_error fs oi = Some (p, ft) ->
+  nth_error fs gi = Some (pg, gT) ->
+  is_any ft = true ->
+  OpenType.not_def p -> OpenType.not_def pg -> gi <> oi ->
+  keeps_order ce T \/ ce = DER ->
+  forall (vs : list (option val)) (g : val),
+  hole_val ce cd d T oi vs = true ->
+  nth gi vs None = Some g ->
+  OpenType.gov_ok gT g = true ->
+  forall (Ti : ty) (xi : val),
+  RoundTrip3b.stage3_ty srt ce Ti = true ->
+  RoundTrip3b.stage3_val ce cd Ti xi = true ->
+  holds_blob ft Ti = false ->
+  inner_kept ce p Ti xi ->
+  (d = false -> inner_definite ce d k Ti xi) ->
+  forall wire : bytes,
+  enc_open ce d k T oi (VRec vs) true [(Ti, xi)] = Ok wire ->
+  (N.of_nat (length wire) <= index_max)%N ->
+  (d = false -> RoundTripModes.no_f01 Ti = true) ->
+  (d = false -> RoundTripModes3.anys_ok Ti xi = true) ->
+  forall (dflt : omap) (override : list (val * ty)) (dot : bool),
+  dot = true \/ override <> [] ->
+  resolve_type override dflt g = Some Ti ->
+  exists rv : val,
+    dec_open cd T gi oi dflt override dot wire = Ok (DV (subst_field T oi Ti) rv, []) /\
+    RoundTrip3e.aeq (abs (subst_field T oi Ti) rv) (abs (subst_field T oi Ti) (VRec (set_nth oi (Some xi) vs))) /\
+    (srt = false -> abs (subst_field T oi Ti) rv = abs (subst_field T oi Ti) (VRec (set_nth oi (Some xi) vs))).
+Proof. exact open_resolved_record. Qed.
+Print Assumptions C18_open_resolved_record.
+
+(* with resolution off and no override, or an unmapped governing value: the member holds exactly the
+   complete encoding of the inner value, and everything else in the record is as it was sent *)
+Theorem C18_open_raw : forall (ce cd : codec) (d : bool) (k : N) (srt : bool),
+  mode_ok ce cd d k ->
+  forall (T : ty) (fs : list (presence * ty)) (gi oi : nat) (p : presence) (ft : ty) (pg : presence) (gT : ty),
+  RoundTrip3b.stage3_ty srt ce T = true ->
+  (d = false -> RoundTripModes.no_f01 T = true) ->
+  rec_fields T = Some fs ->
+  nth_error fs oi = Some (p, ft) ->
+  nth_error fs gi = Some (pg, gT) ->
+  is_any ft = true ->
+  OpenType.not_def p -> OpenType.not_def pg -> gi <> oi ->
+  keeps_order ce T \/ ce = DER ->
+  forall (vs : list (option val)) (g : val),
+  hole_val ce cd d T oi vs = true ->
+  nth gi vs None = Some g ->
+  OpenType.gov_ok gT g = true ->
+  forall (Ti : ty) (xi : val),
+  RoundTrip3b.stage3_ty srt ce Ti = true ->
+  RoundTrip3b.stage3_val ce cd Ti xi = true ->
+  holds_blob ft Ti = false ->
+  inner_kept ce p Ti xi ->
+  (d = false -> inner_definite ce d k Ti xi) ->
+  forall wire : bytes,
+  enc_open ce d k T oi (VRec vs) true [(Ti, xi)] = Ok wire ->
+  (N.of_nat (length wire) <= index_max)%N ->
+  forall (dflt : omap) (override : list (val * ty)) (dot : bool),
+  dot = false /\ override = [] \/ resolve_type override dflt g = None ->
+  exists (chunk : bytes) (vs' : list (option val)) (fv : val),
+    encode ce d k Ti xi = Ok chunk /\
+    dec_open cd T gi oi dflt override dot wire = Ok (DV T (VRec vs'), []) /\
+    nth oi vs' None = Some fv /\
+    octets_of fv = Some chunk /\
+    RoundTrip3e.aeq (abs T (VRec vs')) (abs T (VRec (set_nth oi (Some (VAny chunk)) vs))) /\
+    (srt = false -> abs T (VRec vs') = abs T (VRec (set_nth oi (Some (VAny chunk)) vs))).
+Proof. exact open_raw. Qed.
+Print Assumptions C18_open_raw.
+
+(* non-vacuity: Proofs/OpenTypeRT.v, Examples open_resolved_record_nonvacuous_A .. F (DER->BER with an OID key, untagged
+   ANY under BER with a caller's override, CER->BER, a SET OF ANY inside a DER SET, a defaulted governing member, a sorted DER SET) *)
